@@ -27,8 +27,11 @@ BIG_ROWS = [8191, 8192, 8193]
 TZS = ["UTC", "Europe/Berlin", "America/New_York", "+05:30", "-00:30", "-03:30", "+00:45", "-00:01"]
 
 STR_POOL = ["", "a", "ab", "héllo", "日本語", "𝄞 clef", "x" * 300, "nan", "None", "0", " lead", "trail ",
-            "tab\there", "new\nline", "quote\"s", "ÿ", "Ā", "z" * 17]
-BYTES_POOL = [b"", b"\x00", b"\xff\xfe", b"abc", b"\x00" * 9, bytes(range(256)), b"PAR1", b"\x80"]
+            "tab\there", "new\nline", "quote\"s", "ÿ", "Ā", "z" * 17,
+            # long values that differ only after a long common prefix (bounds must be whole values, not prefixes)
+            "k" * 70 + "-0001", "k" * 70 + "-0002", "k" * 70 + "-0009", "é" * 40 + "-a", "é" * 40 + "-b"]
+BYTES_POOL = [b"", b"\x00", b"\xff\xfe", b"abc", b"\x00" * 9, bytes(range(256)), b"PAR1", b"\x80",
+              b"\x01" * 80 + b"a", b"\x01" * 80 + b"b", b"\xfe" * 65 + b"\x00", b"\xfe" * 65 + b"\x01"]
 JSON_POOL = [[1, 2, 3], {"a": 1}, [], {}, {"k": [1, {"z": None}]}, [1.5, "s", True], {"é": "ü"}, [[]]]
 
 
@@ -120,6 +123,9 @@ def _tz(z):
 
 
 def _pool(pool, n, rng, vals, extra=None):
+    if vals == "long":      # only values longer than 64 bytes (many of them sharing a long prefix)
+        cand = [x for x in pool if len(x if isinstance(x, bytes) else x.encode("utf8")) > 64] or list(pool)
+        return [cand[i] for i in rng.integers(0, len(cand), n)]
     if vals == "small":
         idx = rng.integers(0, min(3, len(pool)), n)
     else:
